@@ -574,9 +574,21 @@ func c08OpTable(c *core.Ctx) {
 				if err != nil {
 					return core.Fail("%s: %v", k, err)
 				}
-				tr, _, g, targets, _ := tensor.VerifGradState(y)
-				if tr || g != nil || len(targets) != 0 {
-					return core.Fail("%s of operands in states %s%s: comparison result tracked=%v", k, states[code%4], states[code/4], tr)
+				tr, dirty, g, targets, _ := tensor.VerifGradState(y)
+				if tr || dirty || g != nil || len(targets) != 0 {
+					return core.Fail("%s of operands in states %s%s: comparison result tracked=%v spent=%v (a comparison result is a fresh untracked tensor whatever its operands went through)", k, states[code%4], states[code/4], tr, dirty)
+				}
+				// the mask combined with a fresh tracked tensor gives a tracked result that back-propagates
+				fresh := rt.Make(in[0], true)
+				z, err := fresh.Mul(y)
+				if err != nil {
+					return core.Fail("Mul with a comparison result: %v", err)
+				}
+				if trz, dz, _, _, _ := tensor.VerifGradState(z); !trz || dz {
+					return core.Fail("a fresh tracked tensor multiplied by the result of %s (operands in states %s%s) gives a result with tracked=%v spent=%v, expected tracked and not spent", k, states[code%4], states[code/4], trz, dz)
+				}
+				if err := tensor.BackPropagate(z); err != nil || fresh.Gradient() == nil {
+					return core.Fail("back-propagating fresh*mask (mask = %s of operands in states %s%s): err=%v, gradient delivered=%v", k, states[code%4], states[code/4], err, fresh.Gradient() != nil)
 				}
 				if err := tensor.BackPropagate(y); err != nil || y.Gradient() != nil {
 					return core.Fail("%s: BackPropagate from a comparison result changed something (err=%v)", k, err)
